@@ -53,7 +53,8 @@ FieldTy(f, of) ==
   IF Has(f.attrs, "inline") THEN (IF nullable THEN ti.inl ELSE ti.oinl)
   ELSE (IF nullable THEN ti.name ELSE ti.oname)
 
-FieldKey(i, f, rule) == IF Has(f.attrs, "rename") THEN "Renamed_field" ELSE DCfg.fieldnames[rule][i]
+QName == "q\"u\\o"          \* the rename value of the attribute token rename_q: q"u\o
+FieldKey(i, f, rule) == IF Has(f.attrs, "rename") THEN "Renamed_field" ELSE IF Has(f.attrs, "rename_q") THEN QName ELSE DCfg.fieldnames[rule][i]
 
 RECURSIVE NamedMembers(_, _, _, _)
 NamedMembers(fs, i, rule, of) ==
@@ -101,7 +102,7 @@ BindStruct(p) ==
 (***************************************************************************)
 (* enum.rs: format_variant                                                 *)
 (***************************************************************************)
-VName(p, i, v) == IF Has(v.attrs, "rename") THEN "renamed_Variant" ELSE DCfg.variantnames[RuleOf(p.cattrs)][i]
+VName(p, i, v) == IF Has(v.attrs, "rename") THEN "renamed_Variant" ELSE IF Has(v.attrs, "rename_q") THEN QName ELSE DCfg.variantnames[RuleOf(p.cattrs)][i]
 VRule(p, v) == IF Has(v.attrs, "rename_all") THEN "camelCase" ELSE IF Has(v.attrs, "rename_all_kebab") THEN "kebab-case"
                ELSE IF v.shape \in {"named0", "struct1", "struct2"} /\ Has(p.cattrs, "rename_all_fields") THEN "camelCase" ELSE ""
 IsNamedV(v) == v.shape \in {"named0", "struct1", "struct2"}
